@@ -52,6 +52,8 @@ def shape_name(sp):
         return "Bool"
     if sp[0] == "and":
         return "And(%s,%s)" % (shape_name(sp[1]), shape_name(sp[2]))
+    if sp[0] == "not":
+        return "Not(%s)" % shape_name(sp[1])
     return "Or(%s)" % ",".join(shape_name(x) for x in sp[1])
 
 
@@ -84,6 +86,10 @@ class World:
                 self.atoms[name] = t
             else:
                 P.pc.append(z3.And(DISC(t) >= 0, DISC(t) < len(self.pidx)))
+                vo = fun("field0", 1)(fun("as_Value", 1)(t))          # an opaque predicate that happens to be Value(Bool b) denotes b
+                bidx = self.vidx["ValueObj"].index("Bool")
+                P.pc.append(z3.Implies(z3.And(DISC(t) == self.pidx["Value"], DISC(vo) == bidx),
+                                       DENF(t, I0) == (DISC(S.SV(fun("field0", 1)(fun("as_Bool", 1)(vo)))) != 0)))
                 if under_and:
                     P.pc.append(DISC(t) != self.pidx["And"])
             P.locals[pl] = t
@@ -99,6 +105,8 @@ class World:
         elif sp[0] == "or":
             el = [self.build(P, x, "%so%d" % (name, i)) for i, x in enumerate(sp[1])]
             P.locals[pl] = ("agg", "predicate::Predicate::Or", [("set", el)])
+        elif sp[0] == "not":
+            P.locals[pl] = ("agg", "predicate::Predicate::Not", [self.box(self.build(P, sp[1], name + "n"))])
         else:
             raise ValueError(sp)
         return Ref(pl)
@@ -124,20 +132,28 @@ class World:
                 return z3.Or([self.den(P, e) for e in v[2][0][1]])
             if last == "Value":
                 return S.truth(self.flow, v[2][0][2][0])
+            if last == "Not":
+                return z3.Not(self.den(P, self.unbox(v[2][0])))
+            if last in ATOMS:
+                return rel(last, I0, VAL(self.flow.term(v[2][1])))
         raise Unsupported("denotation of %r" % (v,))
+
+    def as_atom(self, x):
+        """[(condition, kind, bound)] when x is an atom (a symbolic atom term or an atom aggregate), else None"""
+        if z3.is_expr(x) and any(x.eq(t) for t in self.atoms.values()):
+            return [(DISC(x) == self.pidx[k], k, VAL(fun("field1", 1)(fun("as_" + k, 1)(x)))) for k in ATOMS]
+        if isinstance(x, tuple) and x[0] == "agg" and x[1].split("::")[-1] in ATOMS:
+            return [(z3.BoolVal(True), x[1].split("::")[-1], VAL(self.flow.term(x[2][1])))]
+        return None
 
     def struct_eq(self, P, a, b):
         """(z3 Bool, exact?) for structural equality of two predicate values"""
         a, b = self.flow.deref_all(P, a), self.flow.deref_all(P, b)
-        isatom = lambda x: z3.is_expr(x) and any(x.eq(t) for t in self.atoms.values())
-        if isatom(a) and isatom(b):
-            cs = []
-            for k in ATOMS:
-                f = lambda x: VAL(fun("field1", 1)(fun("as_" + k, 1)(x)))
-                cs.append(z3.And(DISC(a) == self.pidx[k], DISC(b) == self.pidx[k], f(a) == f(b)))
-            return z3.Or(cs), True
+        aa, ab = self.as_atom(a), self.as_atom(b)
+        if aa and ab:
+            return z3.Or([z3.And(ca, cb, va == vb) for ca, ka, va in aa for cb, kb, vb in ab if ka == kb]), True
         agg = lambda x: isinstance(x, tuple) and x[0] == "agg"
-        if (agg(a) and isatom(b)) or (isatom(a) and agg(b)):
+        if (aa and agg(b)) or (ab and agg(a)):
             return z3.BoolVal(False), True
         if agg(a) and agg(b):
             la, lb = a[1].split("::")[-1], b[1].split("::")[-1]
@@ -145,6 +161,8 @@ class World:
                 return z3.BoolVal(False), True
             if la == "Value":
                 return S.truth(self.flow, a[2][0][2][0]) == S.truth(self.flow, b[2][0][2][0]), True
+            if la == "Not":
+                return self.struct_eq(P, self.unbox(a[2][0]), self.unbox(b[2][0]))
             if la == "And":
                 e0, x0 = self.struct_eq(P, self.unbox(a[2][0]), self.unbox(b[2][0]))
                 e1, x1 = self.struct_eq(P, self.unbox(a[2][1]), self.unbox(b[2][1]))
@@ -310,7 +328,56 @@ class World:
             return ("iter", list(st[1]), 0)
 
         def into_iter(flow, P, callee, args):
-            return args[0]
+            a = args[0]
+            if isinstance(a, tuple) and a[0] == "set":      # by-value iteration of a Set<&T> yields the elements themselves
+                return ("iter", [flow.read(P, e.local, list(e.path)) for e in a[1]], 0)
+            return a
+
+        @m("Iterator::find(f) over a set of known size: the first element satisfying f, one continuation per candidate (std contract; the closure is inlined per element)")
+        def it_find(flow, P, callee, args):
+            r = args[0]
+            it = flow.read(P, r.local, list(r.path))
+            clo = args[1]
+            fn = W.closure_fn(clo[1].split("@", 1)[1])
+            place = flow.new_place(P, "pclo", clo)
+            rest = it[1][it[2]:]
+            cs = [S.truth(flow, flow.inline(P, fn, [place, flow.new_place(P, "pitem", e)])) for e in rest]
+            pseudo = {k: v for k, v in P.locals.items() if not re.fullmatch(r"_\d+", k)}
+            alts = [([z3.Not(c) for c in cs[:j]] + [cs[j]], ("agg", "Option::Some", [e]), pseudo) for j, e in enumerate(rest)]
+            alts.append(([z3.Not(c) for c in cs], ("agg", "Option::None", []), pseudo))
+            return ("fork", alts)
+
+        @m("erg_common::Set::{new, insert, linear_remove} on a set of references: a set is the list of its elements")
+        def set_new(flow, P, callee, args):
+            return ("set", [])
+
+        def set_insert(flow, P, callee, args):
+            r = args[0]
+            st = flow.read(P, r.local, list(r.path))
+            flow.write(P, r.local, list(r.path), ("set", list(st[1]) + [flow.new_place(P, "pslot", args[1])]))
+            return flow.fresh("ins")
+
+        def linear_remove(flow, P, callee, args):
+            r = args[0]
+            st = flow.read(P, r.local, list(r.path))
+            tgt = args[1]
+            same = lambda x: isinstance(x, Ref) and isinstance(tgt, Ref) and x.local == tgt.local and x.path == tgt.path
+            flow.write(P, r.local, list(r.path), ("set", [e for e in st[1] if not same(flow.read(P, e.local, list(e.path)))]))
+            return flow.fresh("rm")
+
+        @m("<str as PartialEq>::eq between the `mode` argument and a string literal: decided by the literal's text")
+        def str_eq(flow, P, callee, args):
+            a, b = flow.deref_all(P, args[0]), flow.deref_all(P, args[1])
+            if z3.is_expr(a) and z3.is_expr(b) and str(a).startswith("const__") and str(b).startswith("const__"):
+                return S.TRUE if a.eq(b) else S.FALSE
+            raise Unsupported("str comparison of %r and %r" % (a, b))
+
+        @m("Context::is_sub_pred_of: inlined from the MIR dump")
+        def sub_pred(flow, P, callee, args):
+            fn = flow.find_fn("is_sub_pred_of")
+            if fn is None:
+                raise Unsupported("is_sub_pred_of not in the MIR dump")
+            return flow.inline(P, fn, args)
 
         def it_next(flow, P, callee, args):
             r = args[0]
@@ -370,6 +437,12 @@ class World:
             (r"^Option::<bool>::unwrap_or$", unwrap_or),
             (r"^TyParamOrdering::(is|canbe)_\w+$", ordering),
             (r"::is_super_pred_of$", rec),
+            (r"::is_sub_pred_of$", sub_pred),
+            (r"^<str as PartialEq>::eq$", str_eq),
+            (r"set::Set::<&predicate::Predicate>::new$", set_new),
+            (r"set::Set::<&predicate::Predicate>::insert$", set_insert),
+            (r"set::Set::<&predicate::Predicate>::linear_remove::", linear_remove),
+            (r"as Iterator>::find::", it_find),
             (r"Predicate::ands$", ands),
             (r"Predicate::ors$", ors),
             (r"::reduce_preds$", reduce_preds),
@@ -382,6 +455,23 @@ class World:
             (r"as Iterator>::any::", it_any),
             (r"^<&bool as (std::ops::)?Not>::not$", b_not),
         ]
+
+    def run_reduce(self, mode, specs, order):
+        """execute reduce_preds(mode, {specs...}) with the set iterated in the given order; returns (flow, input refs, paths)"""
+        fn = [f for f in self.fns.values() if f.short == "reduce_preds"]
+        if len(fn) != 1:
+            raise Unsupported("reduce_preds not found uniquely in the MIR dump")
+        flow = S.SemFlow(self.fns, fn[0], None, self.vidx)
+        flow.models = self.models()
+        self.flow = flow
+        P0 = S.Path()
+        P0.pc = list(S.BASE_AXIOMS)
+        refs = [self.build(P0, sp, "E%d" % i) for i, sp in enumerate(specs)]
+        st = ("set", [flow.new_place(P0, "pslot", refs[j]) for j in order])
+        pre = dict(P0.locals)
+        pre.update({"_1": const("ctx"), "_2": const("const__%s_" % mode), "_3": st})
+        outs = flow.run("bb0", stop_at=(), pre=pre, pc=P0.pc)
+        return flow, refs, [(Q, Q.locals.get("_0")) for Q, end in outs if end == "return"]
 
     # ---- one run
     def run(self, lsp, rsp):
@@ -417,6 +507,9 @@ def conc_from_model(W, mdl, sp, name):
     if sp[0] == "or":
         el = [conc_from_model(W, mdl, x, "%so%d" % (name, i)) for i, x in enumerate(sp[1])]
         return None if None in el else ("or", el)
+    if sp[0] == "not":
+        x = conc_from_model(W, mdl, sp[1], name + "n")
+        return None if x is None else ("not", x)
     return None          # an opaque leaf has no concrete instance
 
 
@@ -427,6 +520,8 @@ def conc_rust(c):
         return "pbool(%s)" % str(c[1]).lower()
     if c[0] == "and":
         return "pand(%s, %s)" % (conc_rust(c[1]), conc_rust(c[2]))
+    if c[0] == "not":
+        return "pnot(%s)" % conc_rust(c[1])
     return "por(vec![%s])" % ", ".join(conc_rust(x) for x in c[1])
 
 
@@ -437,6 +532,8 @@ def conc_erg(c):
         return "True" if c[1] else "False"
     if c[0] == "and":
         return "(%s) and (%s)" % (conc_erg(c[1]), conc_erg(c[2]))
+    if c[0] == "not":
+        return "not (%s)" % conc_erg(c[1])
     return " or ".join("(%s)" % conc_erg(x) for x in c[1])
 
 
@@ -447,6 +544,8 @@ def conc_den(c, i):
         return c[1]
     if c[0] == "and":
         return conc_den(c[1], i) and conc_den(c[2], i)
+    if c[0] == "not":
+        return not conc_den(c[1], i)
     return any(conc_den(x, i) for x in c[1])
 
 
@@ -459,14 +558,15 @@ def conc_constraints(W, c, sp, name):
         return [DISC(S.SV(W.bools[name])) == (1 if c[1] else 0)]
     if sp[0] == "and":
         return conc_constraints(W, c[1], sp[1], name + "l") + conc_constraints(W, c[2], sp[2], name + "r")
+    if sp[0] == "not":
+        return conc_constraints(W, c[1], sp[1], name + "n")
     out = []
     for i, x in enumerate(sp[1]):
         out += conc_constraints(W, c[1][i], x, "%so%d" % (name, i))
     return out
 
 
-HELPERS = r"""
-    thread_local! { static CTX: Context = Context::default_with_name("<module>"); }
+HELPERS_BASE = r"""
     fn tpv(v: i64) -> TyParam { if v >= 0 { TyParam::value(v as usize) } else { TyParam::value(v as i32) } }
     fn atom(k: u8, v: i64) -> Predicate {
         let lhs = erg_common::Str::ever("I");
@@ -481,6 +581,7 @@ HELPERS = r"""
     fn pand(a: Predicate, b: Predicate) -> Predicate { Predicate::And(Box::new(a), Box::new(b)) }
     fn por(v: Vec<Predicate>) -> Predicate { Predicate::Or(v.into_iter().collect()) }
     fn pbool(b: bool) -> Predicate { Predicate::Value(ValueObj::Bool(b)) }
+    fn pnot(a: Predicate) -> Predicate { Predicate::Not(Box::new(a)) }
     fn ival(tp: &TyParam) -> i64 {
         match tp {
             TyParam::Value(ValueObj::Int(i)) => *i as i64,
@@ -497,10 +598,22 @@ HELPERS = r"""
             Predicate::NotEqual { rhs, .. } => i != ival(rhs),
             Predicate::And(l, r) => den(l, i) && den(r, i),
             Predicate::Or(s) => s.iter().any(|q| den(q, i)),
+            Predicate::Not(q) => !den(q, i),
             _ => panic!("shape"),
         }
     }
+"""
+HELPERS = HELPERS_BASE + r"""
+    thread_local! { static CTX: Context = Context::default_with_name("<module>"); }
     fn sup(l: &Predicate, r: &Predicate) -> bool { CTX.with(|c| c.is_super_pred_of(l, r)) }
+    fn red(mode: &str, v: Vec<Predicate>, i: i64) -> String {
+        CTX.with(|c| {
+            let set: erg_common::set::Set<&Predicate> = v.iter().collect();
+            let r = c.reduce_preds(mode, set);
+            let (inp, out) = if mode == "and" { (v.iter().all(|p| den(p, i)), r.iter().all(|p| den(p, i))) } else { (v.iter().any(|p| den(p, i)), r.iter().any(|p| den(p, i))) };
+            format!("{} {}", inp, out)
+        })
+    }
 """
 
 
@@ -575,7 +688,7 @@ def run(tier, seed, only=None):
             rep.add(Obligation(key="mir-dump", verdict=BROKEN, reason="cargo +nightly rustc -Zunpretty=mir failed"))
             return rep.finish()
         log("  MIR dump erg_compiler: %.0fs, %d MB" % (dt, len(text) >> 20))
-        fns = M.parse_mir(text, want=["::is_super_pred_of", "typaram.rs:"])
+        fns = M.parse_mir(text, want=["::is_super_pred_of", "::is_sub_pred_of", "::reduce_preds", "typaram.rs:"])
         del text
         mains = [f for f in fns.values() if f.short == "is_super_pred_of"]
         if len(mains) != 1:
@@ -669,6 +782,59 @@ def run(tier, seed, only=None):
             except Unsupported as e:
                 ob.update(verdict=INCONCLUSIVE, reason="unsupported-construct: " + str(e)[:200], solver_s=round(time.time() - t0, 2))
             rep.add(ob)
+        # ---- reduce_preds: the contract the And/And and Or/Or arms rely on, decided on its own MIR (sets of k atoms, every iteration order)
+        red_replay = []
+        red_runs = {}
+        for rmode in ("and", "or"):
+            for k in ((1, 2) if tier == "quick" else (1, 2, 3)):
+                key = "reduce_preds/%s/k=%d" % (rmode, k)
+                if only and not any(o in key for o in only.split(",")):
+                    continue
+                ob = Obligation(dict(engine="mirsem (MIR -> z3 %s)" % z3.get_version_string(), solver="z3", functions=["Context::reduce_preds", "Context::is_super_pred_of", "Context::is_sub_pred_of"],
+                                     shape="a set of %d atoms, mode \"%s\", every iteration order" % (k, rmode),
+                                     symbolic=["kind and bound of every atom", "the integer i0"], bounds={"set size": k}), key=key)
+                t0 = time.time()
+                try:
+                    comb = z3.And if rmode == "and" else z3.Or
+                    npaths, cands, inq = 0, [], 0
+                    keepr = []
+                    for order in itertools.permutations(range(k)):
+                        W = World(fns, vidx, "concrete")
+                        flow, refs, paths = W.run_reduce(rmode, [atom_sp()] * k, order)
+                        inq += flow.queries
+                        models_used |= W.models_used
+                        inlined |= flow.inlined
+                        keepr.append((W, flow, refs, paths, order))
+                        for Q, rv in paths:
+                            if check(Q.pc)[0] != "sat":
+                                continue
+                            npaths += 1
+                            out = comb([W.den(Q, e) for e in rv[1]]) if rv[1] else z3.BoolVal(rmode == "and")
+                            bad = [out != comb([W.den(Q, r) for r in refs])]
+                            block = []
+                            for _ in range(4):
+                                r1, mdl = check(Q.pc + bad + block)
+                                if r1 != "sat" or len(cands) >= 12:
+                                    break
+                                cs = [conc_from_model(W, mdl, atom_sp(), "E%d" % i) for i in range(k)]
+                                cands.append((cs, mdl.eval(I0, model_completion=True).as_long()))
+                                block.append(z3.Or([VAL(fun("field1", 1)(fun("as_" + c[1], 1)(W.atoms["E%d" % i]))) != c[2] for i, c in enumerate(cs)]))
+                    red_runs[key] = (keepr, rmode, k)
+                    ob["queries"] = inq + 2 * npaths
+                    ob["detail"] = {"paths": npaths, "orders": len(keepr)}
+                    if npaths == 0:
+                        ob.update(verdict=BROKEN, reason="no feasible path (vacuous encoding)")
+                    elif cands:
+                        cs, i0 = cands[0]
+                        ob["model"] = {"set": [conc_erg(c) for c in cs], "i0": i0}
+                        ob.update(verdict=VIOLATED, reason="reduce_preds(\"%s\", {%s}) changes the set's meaning at the integer %d (for some iteration order)" % (rmode, "; ".join(conc_erg(c) for c in cs), i0))
+                        red_replay.append((ob, rmode, cands))
+                    else:
+                        ob.update(verdict=HELD, reason="on all %d paths (all %d iteration orders) the reduced set has the same %s as the input" % (npaths, len(keepr), "intersection" if rmode == "and" else "union"))
+                    ob["solver_s"] = round(time.time() - t0, 2)
+                except Unsupported as e:
+                    ob.update(verdict=INCONCLUSIVE, reason="unsupported-construct: " + str(e)[:200], solver_s=round(time.time() - t0, 2))
+                rep.add(ob)
         log("  symbolic stage: %d obligations, %.0fs, %d z3 queries" % (len(rep.obls), time.time() - t_all, nq[0]))
 
         # a rule-mode violation is reported only together with its concrete twin (an opaque counterexample cannot be replayed)
@@ -732,6 +898,17 @@ def run(tier, seed, only=None):
         unlisted = [t for t in to_replay if not rep.known.lookup(rep.prop, t[0]["key"])]
         for i, (ob, cl, cr, i0) in enumerate(to_replay):
             nr.add("r.%d" % i, "let l = %s; let r = %s; format!(\"{} {} {}\", sup(&l, &r), den(&l, %d), den(&r, %d))" % (conc_rust(cl), conc_rust(cr), i0, i0))
+        for i, (ob, rmode, cands) in enumerate(red_replay):
+            for j, (cs, i0) in enumerate(cands):
+                nr.add("q.%d.%d" % (i, j), "red(\"%s\", vec![%s], %d)" % (rmode, ", ".join(conc_rust(c) for c in cs), i0))
+        rtv = []
+        import random as _r
+        rr = _r.Random(seed + 303)
+        for key, (keepr, rmode, k) in sorted(red_runs.items()):
+            for _ in range(5 if k > 1 else 2):
+                rtv.append((key, [("atom", rr.choice(ATOMS), rr.choice([-1, 0, 2])) for _i in range(k)], rr.choice([-2, -1, 0, 1, 2, 3])))
+        for i, (key, cs, i0) in enumerate(rtv):
+            nr.add("u.%d" % i, "red(\"%s\", vec![%s], %d)" % (red_runs[key][1], ", ".join(conc_rust(c) for c in cs), i0))
         res, dtn = nr.run()
         log("  native stage: %d cases, %.0fs" % (len(nr.cases), dtn))
         cbase = dict(engine="native (cargo test on the scratch copy)", functions=["Context::try_cmp", "Context::supertype_of_tp", "TyParam::eq", "TyParam::has_upper_bound", "TyParam::has_lower_bound"])
@@ -777,6 +954,39 @@ def run(tier, seed, only=None):
             if got != "true false true":
                 ob["verdict"] = BROKEN
                 ob["reason"] = "counterexample did not reproduce natively (%s): %s" % (got, ob["reason"])
+        for i, (ob, rmode, cands) in enumerate(red_replay):
+            got = [(j, res.get("q.%d.%d" % (i, j))) for j in range(len(cands))]
+            hit = [j for j, g in got if g in ("true false", "false true")]
+            rep.replayed += len(cands)
+            ob["native_replay"] = {"candidates": len(cands), "reproduced": len(hit), "results (input contains i0, reduced set contains i0)": [g for _, g in got][:6]}
+            if hit:
+                cs, i0 = cands[hit[0]]
+                ob["model"] = {"set": [conc_erg(c) for c in cs], "i0": i0}
+                ob["reason"] = "reduce_preds(\"%s\", {%s}) changes the set's meaning at the integer %d" % (rmode, "; ".join(conc_erg(c) for c in cs), i0)
+            else:
+                ob["verdict"] = INCONCLUSIVE
+                ob["reason"] = "order-dependent counterexample: none of %d value choices reproduced under the real hash set's iteration order (%s)" % (len(cands), ob["reason"])
+        ubad = []
+        for i, (key, cs, i0) in enumerate(rtv):
+            keepr, rmode, k = red_runs[key]
+            comb = z3.And if rmode == "and" else z3.Or
+            preds = set()
+            for W, flow, refs, paths, order in keepr:
+                W.flow = flow
+                pins = [c for j in range(k) for c in conc_constraints(W, cs[j], atom_sp(), "E%d" % j)] + [I0 == i0]
+                for Q, rv in paths:
+                    out = comb([W.den(Q, e) for e in rv[1]]) if rv[1] else z3.BoolVal(rmode == "and")
+                    for val in (True, False):
+                        if check(Q.pc + pins + [out == val])[0] == "sat":
+                            preds.add("%s %s" % (str((all if rmode == "and" else any)(conc_den(c, i0) for c in cs)).lower(), str(val).lower()))
+            rep.replayed += 1
+            if res.get("u.%d" % i) not in preds:
+                ubad.append("%s {%s} at %d: real %s, encoding %s" % (key, "; ".join(conc_erg(c) for c in cs), i0, res.get("u.%d" % i), sorted(preds)))
+        if red_runs:
+            rep.add(Obligation(dict(engine="mirsem vs native", functions=["Context::reduce_preds"]), key="translation/reduce_preds", nontrivial=False,
+                               verdict=BROKEN if ubad else HELD,
+                               reason=("the encoding disagrees with the real function: " + " | ".join(ubad[:4])) if ubad else
+                               "the symbolic execution of reduce_preds predicts the real result's meaning on %d concrete sets" % len(rtv)))
         for o in rep.obls:
             if o.get("twin") and byk[o["twin"]]["verdict"] == BROKEN:
                 o["verdict"] = BROKEN
